@@ -422,6 +422,21 @@ func propCases(prop string, g *Gen, n int) []*Case {
 				}
 				knowingOnly = true
 			}
+			if i%25 == 13 {
+				// OS errors with an empty name (what os.Open("") returns) below a stack layer and a wrapper that
+				// becomes an opaque stand-in: its text is then printed by the engine, which must agree with Error()
+				var os *R
+				if g.r.chance(50) {
+					os = &R{Op: "patherror", Kids: []*R{g.Leaf(0)}, S: []string{"open", ""}}
+				} else {
+					os = &R{Op: "linkerror", Kids: []*R{g.Leaf(0)}, S: []string{"rename", "", "/b/" + g.pathWord()}}
+				}
+				r = &R{Op: "uwrap", S: []string{[]string{"unwrap", "cause", "both"}[g.r.intn(3)], "loading config"}, Kids: []*R{{Op: []string{"withstack", "pkgstack"}[g.r.intn(2)], Kids: []*R{os}}}, Strs: []string{}}
+				if g.r.chance(50) {
+					r = &R{Op: "withmessage", Kids: []*R{r}, S: []string{"outer"}}
+				}
+				knowingOnly = true
+			}
 			refs := g.identityRefs(r, 3)
 			// the whole error rebuilt, and references of the same text but another type next to the right one
 			refs = append(refs, &Ref{Kind: "recipe", R: cloneR(r)})
@@ -569,10 +584,10 @@ func propCases(prop string, g *Gen, n int) []*Case {
 				refs = append(refs, &Ref{Kind: "recipe", R: cloneR(subs[g.r.intn(len(subs))])})
 			}
 			hops := [][][]string{knowing1, g.hopSeq(1, true), {g.proc(1)}}
-			obs := names("root", "hints", "details", "links", "keys", "domain", "tags", "flags", "codes", "os", "text")
+			obs := names("root", "hints", "details", "links", "keys", "domain", "tags", "flags", "codes", "os", "text", "safedetails")
 			obs = append(obs, isObs(len(refs))[1:]...)
 			obs = append(obs, asObs()...)
-			obs = append(obs, Obs{Name: "hop", Procs: knowing1, Sub: append(names("root", "hints", "details", "keys", "domain", "flags", "codes", "os", "text"), isObs(len(refs))[1:]...)})
+			obs = append(obs, Obs{Name: "hop", Procs: knowing1, Sub: append(names("root", "hints", "details", "keys", "domain", "flags", "codes", "os", "text", "safedetails"), isObs(len(refs))[1:]...)})
 			add(&Case{R: r, Refs: refs, Obs: obs, Oracles: []string{"C07", "C07vis"}, Hops: hops})
 		}
 	case "C07M":
@@ -721,6 +736,20 @@ func propCases(prop string, g *Gen, n int) []*Case {
 		for _, r := range enumPairs(g) {
 			add(&Case{R: r, Obs: obs, Oracles: []string{"C11"}})
 		}
+		// annotation strings that are not valid UTF-8: still identical after any number of hops
+		for _, bad := range []string{"caf\xe9", "trunc\xe2\x82", "\xff\xfe key"} {
+			base := func() *R { return &R{Op: "new", S: []string{"base"}} }
+			for _, r := range []*R{
+				{Op: "telemetry", Kids: []*R{base()}, Strs: []string{bad, "ok.key"}},
+				{Op: "domain", Kids: []*R{base()}, S: []string{"error domain: \"" + bad + "\""}},
+				{Op: "issuelink", Kids: []*R{base()}, S: []string{"http://x/" + bad, bad}},
+				{Op: "hint", Kids: []*R{base()}, S: []string{bad}},
+				{Op: "detail", Kids: []*R{base()}, S: []string{bad}},
+				{Op: "tags", Kids: []*R{base()}, Tags: []TagKV{{K: "k", Kind: "str", V: bad}}},
+			} {
+				add(&Case{R: g.Wrapper(r, 1), Obs: obs, Oracles: []string{"C11"}})
+			}
+		}
 		// annotation texts that look like format strings
 		for _, op := range []string{"hint", "detail", "wrap", "withmessage", "domain"} {
 			for _, txt := range []string{"95% of quota", "%d items %s", "100%"} {
@@ -822,6 +851,19 @@ func propCases(prop string, g *Gen, n int) []*Case {
 		}
 	case "C19":
 		obs := names("hints", "details", "flathints", "flatdetails", "links", "keys", "tags")
+		for _, url := range []string{"https://tracker.example/issues/42", ""} {
+			leaf := &R{Op: "unimpl", S: []string{url, "detail", "not done"}}
+			for _, mid := range []*R{nil, {Op: "wrap", S: []string{"ctx"}}, {Op: "hint", S: []string{"h"}}} {
+				var k *R = leaf
+				if mid != nil {
+					m := cloneR(mid)
+					m.Kids = []*R{cloneR(leaf)}
+					k = m
+				}
+				add(&Case{R: &R{Op: "issuelink", Kids: []*R{k}, S: []string{url, "more"}}, Obs: obs, Oracles: []string{"C19"}})
+				add(&Case{R: &R{Op: "issuelink", Kids: []*R{cloneR(k)}, S: []string{url, ""}}, Obs: obs, Oracles: []string{"C19"}})
+			}
+		}
 		// texts that differ only in a rune some formatter might treat specially: every one is a distinct
 		// hint / detail, whichever constructor variant made it
 		for _, pair := range [][2]string{{"open with \u2039", "open with \u203a"}, {"a%b", "a%%b"}, {"x\n", "x"}, {"\u2039q\u203a", "?q?"}} {
@@ -913,6 +955,9 @@ func nilCases(g *Gen) []*R {
 		{Op: "wrap", Kids: []*R{nilR()}, S: []string{"m"}},
 		{Op: "wrap", Kids: []*R{nilR()}, S: []string{""}},
 		{Op: "wrapf", Kids: []*R{nilR()}, Fmt: f},
+		{Op: "wrapf", Kids: []*R{nilR()}, Fmt: []FP{{Kind: "lit", S: "while "}, {Kind: "err", Verb: "v", R: &R{Op: "new", S: []string{"argument"}}}}},
+		{Op: "newassertwrapped", Kids: []*R{nilR()}, Fmt: []FP{{Kind: "err", Verb: "s", R: &R{Op: "stdnew", S: []string{"argument"}}}}},
+		{Op: "withmessagef", Kids: []*R{nilR()}, Fmt: []FP{{Kind: "err", Verb: "v", R: &R{Op: "new", S: []string{"argument"}}}}},
 		{Op: "withmessage", Kids: []*R{nilR()}, S: []string{"m"}},
 		{Op: "withmessagef", Kids: []*R{nilR()}, Fmt: f},
 		{Op: "withstack", Kids: []*R{nilR()}},
